@@ -241,4 +241,24 @@ Proof.
   destruct (Z.leb_spec 0 k); [|lia]. destruct (Z.ltb_spec k (Z.of_nat (length l))); [|lia]. reflexivity.
 Qed.
 
+(* out of range: the run stops with the bounds error *)
+Lemma step_arr_get_oob k l st :
+  at_instr M fn ip (mk OP_ARR_GET []) -> ~ (0 <= k < Z.of_nat (length l))%Z ->
+  step M (mkst fn ret locs (MInt k :: MArr l :: st) cs ip g out) = MErr EOob out.
+Proof.
+  intros H Hk. step_tac H. cbn -[Z.leb Z.ltb Z.of_nat].
+  destruct (Z.leb_spec 0 k); [|reflexivity]. destruct (Z.ltb_spec k (Z.of_nat (length l))); [lia|reflexivity].
+Qed.
+
+(* ARR_LITERAL tag n: the n topmost operands (vs, newest first) become the array, oldest first *)
+Lemma step_arr_literal t n vs st :
+  at_instr M fn ip (mk OP_ARR_LITERAL [t; N.of_nat n]) -> length vs = n ->
+  step M (mkst fn ret locs (vs ++ st) cs ip g out) = MNext (mkst fn ret locs (MArr (rev vs) :: st) cs (ip + 4) g out).
+Proof.
+  intros H Hn. step_tac H. cbn -[Nat.leb Nat.ltb firstn skipn rev]. rewrite Nat2N.id.
+  destruct (Nat.ltb_spec (length (vs ++ st)) n) as [Hlt|_]; [rewrite app_length in Hlt; lia|].
+  subst n. rewrite firstn_app, Nat.sub_diag, firstn_all, skipn_app, Nat.sub_diag, skipn_all. cbn [firstn skipn app].
+  rewrite app_nil_r. reflexivity.
+Qed.
+
 End Steps.
